@@ -4,6 +4,7 @@ import (
 	"bytes"
 	"errors"
 	"fmt"
+	"sort"
 	"strconv"
 	"strings"
 
@@ -39,9 +40,12 @@ type txrun struct {
 	evals    int
 	skipped  int
 	fails    []failure
-	calls    int      // closure invocations
-	onCommit int      // OnCommit callbacks that ran
-	obs      []string // observations: error classes that differ from the nearest documented one where the documents leave it open
+	calls    int                  // closure invocations
+	onCommit int                  // OnCommit callbacks that ran
+	rtx      walletdb.ReadTx      // the transaction (set by the closure)
+	rwtx     walletdb.ReadWriteTx // nil in a read-only transaction
+	poisoned bool                 // an operation panicked inside the adapter: the rest is skipped and the transaction is not committed
+	obs      []string             // observations: error classes that differ from the nearest documented one where the documents leave it open
 }
 
 func (x *txrun) reset() {
@@ -203,32 +207,164 @@ func reverse(ps []pair) []pair {
 	return r
 }
 
-// body runs the program against the namespace bucket.
-func (x *txrun) body(root bk) {
+// body runs the program inside the transaction. Every operation looks its
+// top-level bucket up through the transaction again.
+func (x *txrun) body(rtx walletdb.ReadTx, rwtx walletdb.ReadWriteTx) {
 	x.calls++
 	x.reset()
-	if root.r == nil {
-		x.fail("namespace:missing", "the namespace bucket is not returned by the transaction")
-		return
-	}
+	x.rtx, x.rwtx = rtx, rwtx
 	for _, oi := range x.prog {
-		x.safeStep(root, x.u.ops[oi])
+		if x.poisoned {
+			x.skipped++
+			continue
+		}
+		x.safeStep(x.u.ops[oi])
 	}
 }
 
-func (x *txrun) safeStep(root bk, o Op) {
+func (x *txrun) safeStep(o Op) {
 	defer func() {
 		if r := recover(); r != nil {
-			x.fail("adapter:panic:"+o.name(), "%s panicked: %v", o, r)
+			x.poisoned = true
+			sig := "adapter:panic:" + o.name()
+			if !o.topLevel() && x.tree[o.rootName()] {
+				// the transaction deleted or created this top-level bucket
+				// earlier and the handle it now hands out cannot be used
+				sig = "toplevel:stale-handle-panic"
+			}
+			x.fail(sig, "%s panicked inside the adapter: %v", o, r)
 		}
 	}()
-	x.step(root, o)
+	x.step(o)
 }
 
-func (x *txrun) step(root bk, o Op) {
-	cur := root
-	mb := x.w
-	path := ""
+// lookup fetches a top-level bucket through the transaction.
+func (x *txrun) lookup(name string, forWrite bool) bk {
+	if x.rwtx != nil && forWrite {
+		if b := x.rwtx.ReadWriteBucket([]byte(name)); b != nil {
+			return bk{r: b, w: b}
+		}
+		return bk{}
+	}
+	if b := x.rtx.ReadBucket([]byte(name)); b != nil {
+		return bk{r: b}
+	}
+	return bk{}
+}
+
+// topStep runs an operation on the transaction's top-level buckets.
+func (x *txrun) topStep(o Op) {
+	top := x.w
+	switch o.Kind {
+	case opTopLookup:
+		b := x.lookup(o.K, true)
+		x.evals++
+		if (b.r != nil) != (top.sub(o.K) != nil) {
+			x.fail(x.readSig("", Op{Kind: opNested, K: o.K}, "toplevel:lookup-nilness", "toplevel:read-own-write:lookup", nil),
+				"%s returned nil=%v, model has the bucket=%v (model top level %s)", o, b.r == nil, top.sub(o.K) != nil, top)
+		}
+
+	case opTopForEach:
+		var names []string
+		err := x.rtx.ForEachBucket(func(k []byte) error {
+			names = append(names, string(k))
+			return nil
+		})
+		x.evals++
+		sort.Strings(names)
+		want := top.keys()
+		if err != nil || strings.Join(names, "\x00/") != strings.Join(want, "\x00/") {
+			sig := "toplevel:listing"
+			if x.related("", "*") {
+				sig = "toplevel:read-own-write:listing"
+			}
+			x.fail(sig, "%s listed %q (err=%v), model says %q", o, names, err, want)
+		}
+
+	case opTopCreate, opTopDelete, opTopRecreate:
+		rwtx := x.rwtx
+		if rwtx == nil {
+			// read-only transaction: the mutator must be unavailable or refused
+			x.evals++
+			t, ok := x.rtx.(walletdb.ReadWriteTx)
+			if !ok {
+				return
+			}
+			var err error
+			if o.Kind == opTopCreate {
+				_, err = t.CreateTopLevelBucket([]byte(o.K))
+			} else {
+				err = t.DeleteTopLevelBucket([]byte(o.K))
+				if o.Kind == opTopRecreate && err != nil {
+					_, err = t.CreateTopLevelBucket([]byte(o.K))
+				}
+			}
+			if err == nil {
+				x.fail("view:mutation-accepted:"+o.name(), "%s inside a read-only transaction returned a nil error", o)
+			} else if !errors.Is(err, walletdb.ErrTxNotWritable) {
+				x.obs = append(x.obs, o.name()+" in a read-only transaction -> "+fmt.Sprintf("%T %q", err, err.Error())+" (not walletdb.ErrTxNotWritable)")
+			}
+			return
+		}
+		e := top.ent[o.K]
+		if o.Kind == opTopCreate {
+			// "creates the top level bucket for a key if it does not exist"
+			b, err := rwtx.CreateTopLevelBucket([]byte(o.K))
+			if x.mutResult(o, err, nil) {
+				x.evals++
+				if b == nil {
+					x.fail("create:nil-bucket", "%s returned a nil bucket with a nil error", o)
+				}
+				if e == nil {
+					top.ent[o.K] = &ment{sub: newBucket()}
+					x.mutated("", o.K, o.K)
+				}
+			}
+			return
+		}
+		err := rwtx.DeleteTopLevelBucket([]byte(o.K))
+		var want error
+		if e == nil {
+			want = walletdb.ErrBucketNotFound
+		}
+		if x.mutResult(o, err, want) && want == nil {
+			delete(top.ent, o.K)
+			x.mutated("", o.K, o.K)
+		}
+		if o.Kind == opTopRecreate {
+			// drop (when present) and re-create: an empty bucket afterwards
+			b, err := rwtx.CreateTopLevelBucket([]byte(o.K))
+			if x.mutResult(o, err, nil) {
+				x.evals++
+				if b == nil {
+					x.fail("create:nil-bucket", "%s returned a nil bucket with a nil error", o)
+				}
+				top.ent[o.K] = &ment{sub: newBucket()}
+				x.mutated("", o.K, o.K)
+			}
+		}
+	}
+}
+
+func (x *txrun) step(o Op) {
+	if o.topLevel() {
+		x.topStep(o)
+		return
+	}
+	root := o.rootName()
+	cur := x.lookup(root, o.mutator())
+	mb := x.w.sub(root)
+	x.evals++
+	if (cur.r != nil) != (mb != nil) {
+		x.fail(x.readSig("", Op{Kind: opNested, K: root}, "toplevel:lookup-nilness", "toplevel:read-own-write:lookup", nil),
+			"%s: looking up top-level bucket %q returned nil=%v, model has the bucket=%v (model top level %s)", o, root, cur.r == nil, mb != nil, x.w)
+		return
+	}
+	if mb == nil {
+		x.skipped++
+		return
+	}
+	path := root
 	for _, name := range o.Loc {
 		var nb bk
 		if cur.w != nil && o.mutator() {
@@ -629,6 +765,43 @@ func readModelDepth(b walletdb.ReadBucket, depth int) *mbucket {
 		return nil
 	})
 	return m
+}
+
+// readTop reads every top-level bucket of the database through the
+// transaction (ForEachBucket + ReadBucket) into one model value whose entries
+// are the top-level buckets.
+func readTop(tx walletdb.ReadTx) (top *mbucket) {
+	top = newBucket()
+	defer func() {
+		if r := recover(); r != nil {
+			top.ent["!panic while reading: "+fmt.Sprint(r)] = &ment{}
+		}
+	}()
+	var names []string
+	if err := tx.ForEachBucket(func(k []byte) error {
+		names = append(names, string(k))
+		return nil
+	}); err != nil {
+		top.ent["!ForEachBucket: "+err.Error()] = &ment{}
+	}
+	for _, n := range names {
+		if _, ok := top.ent[n]; ok {
+			top.dup = true
+		}
+		if b := tx.ReadBucket([]byte(n)); b != nil {
+			top.ent[n] = &ment{sub: readModel(b)}
+		} else {
+			top.ent[n] = &ment{val: "!listed by ForEachBucket but ReadBucket returns nil"}
+		}
+	}
+	return top
+}
+
+// newTop is the model of a database whose namespace bucket holds ns.
+func newTop(ns *mbucket) *mbucket {
+	top := newBucket()
+	top.ent[string(nsKey)] = &ment{sub: ns}
+	return top
 }
 
 // writeModel writes the model into an empty real bucket.
